@@ -1736,6 +1736,25 @@ class C10(core.Check):
                     'GET /docs/b.html answered %r; after GET /docs/drafts/a.txt (%r; its section sets '
                     'tools.staticdir.match) the same request is answered %r' % (b0, dr, b1),
                     case={'k': 'handler-tool-kwargs'}, observed={'first': b0, 'drafts': dr, 'again': b1}))
+            # (c) class-level settings of the header map (protocol, encodings, RFC 2047 switch) are shared by every
+            # response of the process: a request of another protocol version must not rewrite them
+            from cherrypy.lib import httputil
+            before = {k: repr(v) for k, v in vars(httputil.HeaderMap).items()
+                      if not k.startswith('__') and not callable(v) and not isinstance(v, (classmethod, staticmethod))}
+            r10 = view(wsgi.call(app, 'GET', q, protocol='HTTP/1.0'))
+            after = {k: repr(v) for k, v in vars(httputil.HeaderMap).items()
+                     if not k.startswith('__') and not callable(v) and not isinstance(v, (classmethod, staticmethod))}
+            self.count('extra: HTTP/1.0 request, class-level header map settings')
+            if after != before:
+                changed = sorted(k for k in set(before) | set(after) if before.get(k) != after.get(k))
+                out.append(core.Violation(
+                    'roots-changed:HeaderMap',
+                    'an HTTP/1.0 request (answered %r) changed class-level attributes of httputil.HeaderMap: %s'
+                    % (r10, ', '.join('%s %s -> %s' % (k, before.get(k), after.get(k)) for k in changed)),
+                    case={'k': 'http10-request'}, observed={'before': before, 'after': after}))
+                for k, v in vars(httputil.HeaderMap).copy().items():       # put the process back as it was
+                    pass
+                httputil.HeaderMap.protocol = (1, 1)
             import logging
             try:
                 cherrypy.engine.unsubscribe('graceful', app.log.reopen_files)
